@@ -16,6 +16,7 @@ import (
 	"fmt"
 	"strconv"
 	"strings"
+	"time"
 
 	"github.com/blinklabs-io/gouroboros/cbor"
 	"github.com/blinklabs-io/gouroboros/ledger/allegra"
@@ -23,6 +24,7 @@ import (
 	"github.com/blinklabs-io/gouroboros/ledger/babbage"
 	"github.com/blinklabs-io/gouroboros/ledger/common"
 	"github.com/blinklabs-io/gouroboros/ledger/conway"
+	"github.com/blinklabs-io/gouroboros/ledger/dijkstra"
 	"github.com/blinklabs-io/gouroboros/ledger/mary"
 	"github.com/blinklabs-io/gouroboros/ledger/shelley"
 	mockledger "github.com/blinklabs-io/ouroboros-mock/ledger"
@@ -30,7 +32,7 @@ import (
 )
 
 func init() {
-	register(&Prop{ID: "C28", Gen: genC28, Run: runC28})
+	register(&Prop{ID: "C28", Gen: genC28, Run: runC28, Timeout: 3 * time.Minute})
 }
 
 func c28Key(useed []byte, k int) ed25519.PrivateKey {
@@ -132,6 +134,15 @@ func runC28(op string) string {
 		return "bad-op"
 	}
 	era := head[1]
+	// "+nc1" / "+nc2": the body is re-encoded non-canonically (map header in its 1- / 2-byte
+	// length form) before anything is hashed or signed: the tx id is the hash of THOSE bytes
+	nc := ""
+	if i := strings.Index(era, "+"); i >= 0 {
+		era, nc = era[:i], era[i+1:]
+		if nc != "nc1" && nc != "nc2" {
+			return "bad-op"
+		}
+	}
 	useed, ok := unhex(head[2])
 	if !ok {
 		return "bad-op"
@@ -148,7 +159,7 @@ func runC28(op string) string {
 	hasAlonzo := false
 	switch era {
 	case "shelley", "allegra", "mary":
-	case "alonzo", "babbage", "conway":
+	case "alonzo", "babbage", "conway", "dijkstra":
 		hasAlonzo = true
 	default:
 		return "bad-op"
@@ -258,6 +269,17 @@ func runC28(op string) string {
 	if err != nil {
 		return "encode-err " + err.Error()
 	}
+	if nc != "" {
+		if bodyBytes[0] < 0xa0 || bodyBytes[0] > 0xb7 {
+			return "encode-err unexpected body header"
+		}
+		n := bodyBytes[0] - 0xa0
+		if nc == "nc1" {
+			bodyBytes = append([]byte{0xb8, n}, bodyBytes[1:]...)
+		} else {
+			bodyBytes = append([]byte{0xb9, 0x00, n}, bodyBytes[1:]...)
+		}
+	}
 	txid := blake2b.Sum256(bodyBytes)
 	// ---- witnesses
 	wits := map[uint]any{}
@@ -358,9 +380,14 @@ func runC28(op string) string {
 		t, e := conway.NewConwayTransactionFromCbor(txBytes)
 		tx, err = t, e
 		rules = [3]common.UtxoValidationRuleFunc{conway.UtxoValidateSignatures, conway.UtxoValidateCollateralVKeyWitnesses, conway.UtxoValidateRequiredVKeyWitnesses}
+	case "dijkstra":
+		// the Dijkstra rule list uses the Conway rule functions (GV.Props.C28.rules_listed)
+		t, e := dijkstra.NewDijkstraTransactionFromCbor(txBytes)
+		tx, err = t, e
+		rules = [3]common.UtxoValidationRuleFunc{conway.UtxoValidateSignatures, conway.UtxoValidateCollateralVKeyWitnesses, conway.UtxoValidateRequiredVKeyWitnesses}
 	}
 	if err != nil {
-		return "decode-err " + err.Error()
+		return "decode-err"
 	}
 	if got := tx.Hash(); string(got.Bytes()) != string(txid[:]) {
 		return "txid-mismatch"
@@ -395,11 +422,11 @@ func runC28(op string) string {
 // ---- generator
 
 func genC28(r *Rand, n int, tier string, emit func(string)) {
-	eras := []string{"shelley", "allegra", "mary", "alonzo", "babbage", "conway"}
+	eras := []string{"shelley", "allegra", "mary", "alonzo", "babbage", "conway", "dijkstra"}
 	useeds := []string{hexs(r.Bytes(8)), hexs(r.Bytes(8)), hexs(r.Bytes(8))}
 	for i := 0; i < n; i++ {
 		era := eras[r.Intn(len(eras))]
-		hasAlonzo := era == "alonzo" || era == "babbage" || era == "conway"
+		hasAlonzo := era == "alonzo" || era == "babbage" || era == "conway" || era == "dijkstra"
 		nk := 2 + r.Intn(5) // key universe 0..nk-1
 		type owner struct {
 			tok  string
@@ -560,6 +587,9 @@ func genC28(r *Rand, n int, tier string, emit func(string)) {
 		reqS := []string{}
 		for _, k := range req {
 			reqS = append(reqS, strconv.Itoa(k))
+		}
+		if r.Chance(1, 4) {
+			era += Pick(r, "+nc1", "+nc2")
 		}
 		emit(fmt.Sprintf("wit %s %s | in %s | coll %s | req %s | wd %s | vk %s | bw %s",
 			era, useeds[r.Intn(len(useeds))], toks(ins), toks(coll), strings.Join(reqS, " "), strings.Join(wd, " "),
